@@ -16,13 +16,13 @@ using namespace wc;
 #endif
 
 struct req_t { int op; uint8_t qos; uint8_t tag; uint8_t t1, p1; bool retain; bool has_exp; uint32_t exp; };
-struct ack_t { uint8_t type; uint16_t pid; uint8_t rc; int epoch; int after_pk; bool valid; bool consumed; bool answers; };
+struct ack_t { uint8_t type; uint16_t pid; uint8_t rc; int epoch; int after_pk; bool valid; bool consumed; bool answers; bool parked; };
 
 struct X {
   W w;
   req_t reqs[VK_REQS]; int nreq = 0;
   ack_t acks[16]; int nacks = 0;
-  int nreconn = 0, nbad = 0;
+  int nreconn = 0, nbad = 0, nearly = 0;
   uint8_t first_tx[VK_REQS][48]; size_t first_tx_len[VK_REQS]; bool have_first[VK_REQS]; int tx_ok_before[VK_REQS];
 
   // ---- helpers over the packet log
@@ -47,7 +47,7 @@ struct X {
   // answers: the packet is the broker's (only) answer to what it owed for (type, pid) on this connection, well-formed or not
   void log_ack(uint8_t type, uint16_t pid, uint8_t rc, bool valid, bool answers) {
     vk_assert(nacks < 16, "harness: ack log capacity");
-    acks[nacks++] = ack_t{type, pid, rc, w.epoch, w.npk, valid, false, answers};
+    acks[nacks++] = ack_t{type, pid, rc, w.epoch, w.npk, valid, false, answers, false};
   }
   // ---- events
   void ev_publish() {
@@ -68,9 +68,16 @@ struct X {
   }
   void ev_write_done() {
     auto* s = vk::pending_write(); if (!s) vk_assume(0);
-    int before = w.npk;
+    int before = w.npk; bool was_early = s->delivered_early;
     w.finish_write(s, s->wdata.size(), {}); vk::drain();
+    if (was_early) for (int q = 0; q < VK_REQS; q++) if (early_req[q]) { tx_ok_before[q]++; early_req[q] = false; }
+    if (was_early) for (int a = 0; a < nacks; a++) if (acks[a].epoch == w.epoch && acks[a].parked) { acks[a].parked = false; acks[a].consumed = true; }
     on_new_packets(before);
+  }
+  // the broker already has the bytes of the write in progress (and may answer) while the client has not yet seen its write complete
+  void ev_early_delivery() {
+    auto* s = vk::pending_write(); if (!s || s->delivered_early || nearly >= 1) vk_assume(0);
+    nearly++; int before = w.npk; w.deliver_early(s); early_mode = true; on_new_packets(before); early_mode = false; vk_reach("early-delivery");
   }
   // what the broker owes next to the oldest exchange it has seen on this connection: type and pid, or 0
   uint8_t owed(uint16_t& pid) {
@@ -92,12 +99,15 @@ struct X {
   void deliver(int chunking) {
     if (chunking == 1 && w.out_avail() > 1) { w.feed(1); vk::drain(); }
     if (chunking == 2 && w.out_avail() > 1) { w.feed(w.out_avail() - 1); vk::drain(); }
+    // an acknowledgement that overtakes the completion of the client's own write is parked by the client (fast reply); it counts
+    // as consumed only once the write completion has been processed on the same connection
+    bool overtaking = vk::pending_write() && vk::pending_write()->delivered_early;
     w.feed_all(); vk::drain();
-    for (int a = 0; a < nacks; a++) if (acks[a].epoch == w.epoch) acks[a].consumed = true;
+    for (int a = 0; a < nacks; a++) if (acks[a].epoch == w.epoch && !acks[a].parked) { if (overtaking && !acks[a].consumed) acks[a].parked = true; else acks[a].consumed = true; }
   }
   void ev_correct_ack() {
     uint16_t pid = 0; uint8_t t = owed(pid);
-    if (!t || !w.connected() ) vk_assume(0);
+    if (!t || !w.connected_or_writing()) vk_assume(0);
     // one variation per event: short forms, a non-zero listed code, two chunkings
     uint8_t rc = 0; int form = 1; int chunk = 0;
     switch (vk_choose(VK_ACK_VARIANTS)) {
@@ -130,7 +140,7 @@ struct X {
   void ev_reconnect() {
     if (w.connected()) {
       if (nreconn >= 1) vk_assume(0);
-      nreconn++; w.drop_connection(); vk::drain();
+      nreconn++; w.drop_connection(); vk::drain(); for (int q = 0; q < VK_REQS; q++) early_req[q] = false;
     } else if (!w.attempt_in_progress()) vk_assume(0);      // the client itself left the connection (e.g. after DISCONNECT 0x81) and is reconnecting
     int before = w.npk;
     bool ok = w.establish(); vk_assert(ok, "the client reconnects after a connection loss");
@@ -139,6 +149,7 @@ struct X {
     vk_reach("reconnected");
   }
   // ---- wire monitors (C03: retransmissions)
+  bool early_mode = false; bool early_req[VK_REQS] = {};
   void on_new_packets(int from) {
     for (int i = from; i < w.npk; i++) {
       const pkt_rec& r = w.pk[i]; if (r.type != ref::PUBLISH || r.qos == 0) continue;
@@ -158,7 +169,8 @@ struct X {
         vk_assert(r.dup == (tx_ok_before[q] > 0), "DUP must be set exactly when an earlier transmission had been written successfully");
         vk_reach("retransmitted");
       }
-      tx_ok_before[q]++;
+      // "written successfully" is the client's view: a transmission the broker got early counts once the client's write completes
+      if (early_mode) early_req[q] = true; else tx_ok_before[q]++;
       // no PUBLISH again once a successful PUBREC for this exchange was consumed
       for (int a = 0; a < nacks; a++)
         if (acks[a].valid && acks[a].type == ref::PUBREC && acks[a].rc < 0x80 && acks[a].consumed && acks[a].pid == r.pid && acks[a].after_pk <= i) {
@@ -222,12 +234,13 @@ extern "C" void h_pub(void) {
   w.start(); w.connect_ok();
   int stamped = w.npk;
   for (int step = 0; step < VK_STEPS; step++) {
-    uint32_t ev = vk_choose(5);
+    uint32_t ev = vk_choose(6);
     switch (ev) {
       case 0: x->ev_publish(); break;
       case 1: x->ev_write_done(); break;
       case 2: x->ev_correct_ack(); break;
       case 3: x->ev_bad_packet(); break;
+      case 4: x->ev_early_delivery(); break;
       default: stamp_requests(x, stamped); stamped = w.npk; x->ev_reconnect(); break;
     }
     stamp_requests(x, stamped); stamped = w.npk;
